@@ -26,6 +26,18 @@ ASSUMPTIONS = ['queue.Queue is FIFO and thread safe', 'the device echoes the var
 FLOORS = {'R9': 5, 'R1': 3, 'R2': 2, 'R3': 6, 'R4': 11, 'R5': 4, 'R6': 16, 'R7': 7, 'R8': 4, 'R10': 14, 'R11': 2, 'R12': 11, 'R13': 1}
 
 
+def param_lookup_rule(ctx, rule):
+    """Every value packet is resolved against the TOC of the current connection at the time it arrives: the element is whatever
+    self.toc.get_element_by_id(id) returns now.  A memo of earlier look-ups (also of "not found") survives a new TOC download and a
+    reconnection and then files values under the wrong - or no - parameter.  Shared with C02 (fully_connected only when every
+    parameter of this connection has a value)."""
+    pu = ctx.model.func('cflib/crazyflie/param.py', 'Param._param_updated')
+    binds = [s_ for s_ in walk_own(pu.node) if isinstance(s_, (ast.Assign, ast.AugAssign, ast.AnnAssign)) and
+             any(norm(t) == 'element' for t in (s_.targets if isinstance(s_, ast.Assign) else [s_.target]))]
+    ok = len(binds) >= 1 and all(isinstance(b, ast.Assign) and norm(b.value) == 'self.toc.get_element_by_id(var_id)' for b in binds)
+    ctx.inst(rule, pu, 'element-by-id', ok, 'element looked up by the decoded id in the current TOC, on every packet; bindings: %s' % [norm(b) for b in binds])
+
+
 def check(ctx):
     m = ctx.model
     P = m.cls(PAR, 'Param')
@@ -231,7 +243,7 @@ def check(ctx):
             want = 'struct.unpack(element.pytype, pk.data[id_index + 2:])[0]' if v2 else 'struct.unpack(element.pytype, pk.data[1:])[0]'
         ctx.inst('R7', pu, '%s[%s]' % (t, 'V2' if v2 else 'V1'), norm(x.ast.value) == want, '%s decoded as %s, expected %s' % (t, norm(x.ast.value), want))
     st = {norm(s.targets[0]): norm(s.value) for s in sorted([s for s in walk_own(pu.node) if isinstance(s, ast.Assign)], key=lambda s: s.lineno)}
-    ctx.inst('R7', pu, 'element-by-id', st.get('element') == 'self.toc.get_element_by_id(var_id)', 'element looked up by the decoded id')
+    param_lookup_rule(ctx, 'R7')
     ctx.inst('R7', pu, 'stored-string', st.get('value_s') in ('value.__str__()', 'str(value)') and st.get('self.values[element.group][element.name]') == 'value_s' and
              st.get('complete_name') == "'%s.%s' % (element.group, element.name)", 'one string is stored under values[group][name]')
     fan = [(n, c) for n, c in g.find(lambda n: method_call(n, 'call'))
